@@ -221,6 +221,11 @@ static void run_case(cs::Src& s, cs::Ctx& ctx) {
     o.max_children = 2;
     limit = (int)s.range(0, 32);
   }
+  if (s.chance(1, 8)) {  // containers with 8..40 children (fix / 16-bit count families)
+    o.max_children = 40;
+    o.node_budget = 80;
+    o.max_depth = 2;
+  }
   Val v = gen::gen_value(s, o);
   if (s.chance(1, 3)) add_binext(v, s);
   SrcWidths w;
